@@ -38,7 +38,7 @@ ASSUMPTIONS = [
 ]
 REPORT_COUNTERS = ["programs", "calls", "calls_model_checked", "predicate_evaluations", "dependent_entries_checked",
                    "strategy_ifchain", "strategy_table", "strategy_counting", "expected_ambiguous", "expected_fallthrough",
-                   "composite_programs"]
+                   "composite_programs", "isect_vs_subclass_calls"]
 
 
 def plan(tier):
@@ -80,7 +80,32 @@ def _gen_t(rng, names, composite):
     return rng.choice(names + ["int", "object", "bool", "MyInt", "str", "float"])
 
 
+def _gen_isect_vs_subclass(rng):
+    """`A & Dependent[B, cond]` next to a method on a strict subclass S of A (B is A or object), one position.
+    Documented: a dependent type is more specific than its bound and than the bound's subclasses, an intersection is
+    more specific than each of its members - so when the condition holds the intersection method is preferred."""
+    hier = [{"name": "K0", "bases": []}, {"name": "K1", "bases": ["K0"]}, {"name": "K2", "bases": ["K1"]}]
+    A, S, vals = rng.choice([("int", "bool", [["v", True], ["v", False], ["v", 2], ["v", 0]]),
+                             ("int", "MyInt", [["mi", 2], ["mi", 3], ["mi", 0], ["v", 2], ["v", 3]]),
+                             ("K0", "K1", [["i", "K1"], ["i", "K2"], ["i", "K0"]]),
+                             ("K0", "K2", [["i", "K2"], ["i", "K1"], ["i", "K0"]]),
+                             ("K1", "K2", [["i", "K2"], ["i", "K1"]])])
+    B = rng.choice([A, "object"])
+    preds = ["truthy", "falsy", "always", "never"] + (["even", "odd", "ge3"] if A == "int" else [])
+    pred = rng.choice(preds)
+    isect = ["I", A, ["D", B, pred]] if rng.random() < 0.5 else ["I", ["D", B, pred], A]
+    methods = [{"mid": 0, "pos": [{"n": "a0", "t": isect}], "kw": [], "prio": 0, "kind": "leaf"},
+               {"mid": 1, "pos": [{"n": "a0", "t": S}], "kw": [], "prio": 0, "kind": "leaf"},
+               {"mid": 2, "pos": [{"n": "a0", "t": "object"}], "kw": [], "prio": -1, "kind": "leaf"}]
+    if rng.random() < 0.5:
+        methods[0], methods[1] = methods[1], methods[0]
+    calls = [{"pos": [v], "kw": {}} for v in vals + [["v", "s"], ["v", None]]]
+    return {"hier": hier, "methods": methods, "npos": 1, "composite": True, "isect_vs_subclass": [isect, S], "calls": calls}
+
+
 def gen_case(rng, params, idx):
+    if idx % 16 == 11:
+        return _gen_isect_vs_subclass(rng)
     composite = idx % 4 == 3
     many_literals = idx % 4 == 2
     hier = gen.gen_hierarchy(rng, rng.randint(1, 3), attrs=False)
@@ -203,6 +228,18 @@ def check_case(spec, res):
             res.violation("dispatch-crash", [obs[1], obs[2][:40] if obs[1] != "CycleError" else ""], spec,
                           observed={"call": call, "error": list(obs)},
                           acceptable="a method runs or a dispatch TypeError is raised", finding=finding)
+            continue
+        if spec.get("isect_vs_subclass"):
+            isect, S = spec["isect_vs_subclass"]
+            v0 = vals[0][0]
+            in_i = T.accepts(isect, env, v0)
+            want = ("win", [m["mid"] for m in methods if m["pos"][0]["t"] == isect][0]) if in_i is True else \
+                (("win", [m["mid"] for m in methods if m["pos"][0]["t"] == S][0]) if isinstance(v0, env.cls(S)) else
+                 ("win", [m["mid"] for m in methods if m["prio"] == -1][0]))
+            res.count("isect_vs_subclass_calls")
+            if in_i is not None and obs != want:
+                res.violation("intersection-with-dependent-vs-subclass", [obs[0], bool(in_i)], spec,
+                              observed={"call": call, "outcome": obs}, acceptable=list(want))
             continue
         if not modelled:
             continue
